@@ -288,7 +288,7 @@ class Output(BaseOutput):
         Args:
             state: A Ladim State instance
         """
-        npart = int(state.pid.max()) + 1  # Total number of particles so far
+        npart = int(state.npid)  # Total number of particles so far
         for var in self.particle_variables:
             if state.dtypes[var] == np.dtype("datetime64[s]"):
                 unit = self.time_unit
